@@ -154,7 +154,7 @@ def _effects(repo, rep):
     f = repo.func(BT + "render")
     t = L.text(f.node, body_only=True)
     for need, what in (("econtext = Scope(__kw)", "variable scope"),
-                       ("rcontext: dict[str, Any] = {}", "global context"),
+                       ("rcontext = {}", "global context"),
                        ("stream = self.output_stream_factory()",
                         "output stream")):
         rep.check(need in t, "R14.1", f.qualname, "the %s is constructed "
